@@ -25,7 +25,7 @@ from simkit.net import ConnectPlan
 ID = "C19"
 LEVEL = "exploration"
 ENGINE = "simkit/proxy-world"
-QUICK_RUNS = 10000
+QUICK_RUNS = 14000
 QUICK_BUDGET_S = 150
 THOROUGH_BUDGET_S = 900
 CHUNK = 50
